@@ -42,6 +42,16 @@ CFG = {
             "bytes received, first differing offset, clean end of stream) - the judge demands equal lengths, no "
             "differing offset and a clean end; long periodic stretches of a header value are written as (rep period "
             "count) in the Coq case by a printer that decodes its own term and compares it with the bytes sent. "
+            "HTTP/2 slice (group 'h2'; hyper's http2 client, cleartext with prior knowledge to the plain server and ALPN h2 "
+            "to the TLS servers): connections of 8 streams (alternately one after the other and all at once) and one "
+            "connection with all streams at once, carrying every combination of Sec-WebSocket-Version 13 / 12 / "
+            "'13, 8' / absent, Sec-WebSocket-Key present / absent / 8193 bytes / empty, with and without "
+            "Sec-WebSocket-Protocol + Origin, body absent / 5 bytes / 70000 bytes (thorough: keys of 15..8193 bytes and "
+            "extra fields too). Connection and Upgrade are connection-specific fields that HTTP/2 forbids and client "
+            "libraries strip, so every such request lacks two elements: the judge (same classify / served) demands a "
+            "4xx final response on each stream and no handler entry over the connection - a 101, no final response "
+            "within 3 s, a failed stream or a handler entry is a violation - and compares the status with the model's "
+            "400 and that an ordinary request is answered on the connection afterwards. "
             "A 101 after which the pipe is dead (no echo, no clean end of stream, handler not "
             "entered) is a violation on either transport. Non-trivial: at least one header line; distinct by case "
             "content (transport included).",
@@ -66,12 +76,16 @@ CFG = {
         "blocks stay far below hyper's 417792-byte read-buffer limit",
         "hyper's Upgraded + hyper_util TokioIo as a transparent byte pipe, tokio::spawn running the task, "
         "tokio::io::copy in the harness's echo handler (runtime behaviour: sampled, not modelled beyond identity)",
+        "hyper 1.6 http2 client + h2 0.4 (client side of the HTTP/2 cases): sends the fields given (it removes "
+        "connection-specific ones, none are given), reports the final response of each stream",
         "rustls 0.22 / tokio-rustls 0.25 (client side of the TLS cases, and inside dropshot's TLS acceptor): "
         "a transparent byte stream with close_notify as end of stream",
         "the OS loopback TCP stack",
     ],
     "assumptions": [
-        "requests are HTTP/1.1 GET without a body (RFC 6455 requires HTTP/1.1; hyper does not offer an upgrade on 1.0)",
+        "handshakes are HTTP/1.1 GET without a body (RFC 6455 requires HTTP/1.1; hyper does not offer an upgrade on "
+        "1.0); HTTP/2 requests are exercised as requests that lack the Connection and Upgrade elements (RFC 8441 "
+        "extended CONNECT is not offered by the server and not modelled)",
         "the #[channel] adapter calls handle exactly once on the value from_request returned (read from "
         "dropshot_endpoint/src/channel.rs to_adapter_fn; handle's 'handled twice' 500 arm is modelled but unreachable)",
         "a key is any field value: from_request does not check that it is base64 of 16 bytes, and the property "
